@@ -1,0 +1,46 @@
+//go:build verif
+
+// Contracts for the deductive verifier in /verif (govc). This file holds a build
+// constraint, a package clause and comments only: with the tag off it is not
+// compiled, with the tag on it compiles to nothing.
+package value
+
+// ---------------------------------------------------------------- binning (C20)
+
+//@ func newBinning
+//@   property C20
+//@   safety C20
+//@   requires count >= 0
+//@   ensures result != nil && fresh(result)
+//@   ensures len(result.bins) == count+2 && result.a.bins == count+2
+//@   ensures result.a.start == start && result.a.size == size
+//@   ensures forall k in 0..count+2 :: result.bins[k] == 0.0
+
+//@ func (a *axis) getIndex
+//@   property C20
+//@   safety C20
+//@   requires a.size > 0.0 && a.bins >= 2
+//@   ensures[range] 0 <= result && result < a.bins
+//@   ensures[underflow] v < a.start <==> result == 0
+//@   ensures[overflow] v >= a.start+float64(a.bins-2)*a.size <==> result == a.bins-1
+//@   ensures[interior] 1 <= result && result <= a.bins-2 ==> a.start+float64(result-1)*a.size <= v && v < a.start+float64(result)*a.size
+//@   assigns nothing
+
+//@ func (a *axis) getDescr
+//@   property C20
+//@   safety C20
+//@   requires a.bins >= 2 && 0 <= i && i < a.bins
+//@   ensures[first] i == 0 ==> !result.IsMin && result.IsMax && result.Max == a.start
+//@   ensures[last] i == a.bins-1 ==> result.IsMin && !result.IsMax && result.Min == a.start+float64(a.bins-2)*a.size
+//@   ensures[inner] 0 < i && i < a.bins-1 ==> result.IsMin && result.IsMax && result.Min == a.start+float64(i-1)*a.size && result.Max == a.start+float64(i)*a.size
+//@   assigns nothing
+
+//@ func (s *BinningData) Add
+//@   property C20
+//@   safety C20
+//@   requires s.a.size > 0.0 && s.a.bins >= 2 && len(s.bins) == s.a.bins
+//@   ensures[header] len(s.bins) == old(len(s.bins)) && s.a.bins == old(s.a.bins) && s.a.start == old(s.a.start) && s.a.size == old(s.a.size)
+//@   ensures[onebin] exists k in 0..len(s.bins) :: s.bins[k] == old(s.bins[k])+toSum && (forall j in 0..len(s.bins) :: j != k ==> s.bins[j] == old(s.bins[j])) \
+//@       && (value < s.a.start <==> k == 0) && (value >= s.a.start+float64(s.a.bins-2)*s.a.size <==> k == s.a.bins-1) \
+//@       && (1 <= k && k <= s.a.bins-2 ==> s.a.start+float64(k-1)*s.a.size <= value && value < s.a.start+float64(k)*s.a.size)
+//@   assigns s.bins[*]
